@@ -3,17 +3,11 @@
 // unqualified calls `sin (r)`, `fabs (x)` of ImathMatrix.h / ImathFrame.h are ambiguous with the ADL candidates symns::sin.
 #include <math.h>
 #include "sym.h"
-// firstFrame() is declared IMATH_NOEXCEPT but calls normalizeExc(): when pi == pj the real build calls
-// std::terminate instead of throwing the documented std::domain_error.  In THIS translation unit noexcept is
-// switched off so that path can be enumerated (it appears as `.error Exc.domainError` in Gen.Frame.firstFrame);
-// nothing else depends on noexcept.
-#undef IMATH_NOEXCEPT
-#define IMATH_NOEXCEPT
-namespace symns
-{
-// nextFrame calls the C function acosf for every T
-inline Sym acosf (Sym a) { return un (ACOS, a); }
-}
+// NB: IMATH_NOEXCEPT is NOT overridden here (it was, while firstFrame() was declared noexcept although it calls normalizeExc(); fixed in
+// /repo by 24cea33): the extractor sees the headers as shipped.  firstFrame's pi == pj path is the `.error Exc.domainError` leaf of
+// Gen.Frame.firstFrame; harness/corr/c09_noexcept.cpp observes on the shipped build that this exception really reaches the caller.
+// Should a throwing call ever sit under `noexcept` again, the extractor itself terminates on that path (build/emit VIOLATION) and the
+// noexcept harness reports the input.
 #include "shapes.h"
 #include "main.h"
 #include <ImathMatrixAlgo.h>
